@@ -369,7 +369,7 @@ fn run_docs(counts: &[usize]) -> Vec<Case> {
 fn nested_docs() -> Vec<Case> {
     let mut out = vec![];
     // integers at and around the borders of i64 / u64 / i32, in every position an integer may take
-    for lit in ["9223372036854775807", "9223372036854775808", "-9223372036854775808", "-9223372036854775809", "--9223372036854775808", "---9223372036854775808", "18446744073709551615", "18446744073709551616", "0x7fffffffffffffff", "0x8000000000000000", "-0x8000000000000000", "-0x8000000000000001", "0xffffffffffffffff", "0x10000000000000000", "-0x0000000000000000008000000000000000", "2147483648", "-2147483649", "4294967296", "1.0e-9223372036854775808", "1e9223372036854775808", "1e-0x8000000000000000"] {
+    for lit in ["9223372036854775807", "9223372036854775808", "-9223372036854775808", "-9223372036854775809", "--9223372036854775808", "---9223372036854775808", "18446744073709551615", "18446744073709551616", "0x7fffffffffffffff", "0x8000000000000000", "-0x8000000000000000", "-0x8000000000000001", "0xffffffffffffffff", "0x10000000000000000", "-0x0000000000000000008000000000000000", "2147483648", "-2147483649", "4294967296", "1.0e-9223372036854775808", "1e9223372036854775808", "1e-0x8000000000000000", "1e0xE", "1e0x1e", "2.5E0xEE", ".5e-0xfe", "1e0xe5", "1e0x", "1.e0x", "1e", "1e-", "1.5e+", "1e--2", "1e+-2", "-+1.5", "+-1.5", "+1", "0x", "-0x", "0xg", "1.", ".e1", "1..2", "1e1e1", "0x1p3", "1_000", "00", "-0", "-0.0", "1e0X10", "0X10"] {
         out.push(Case { text: format!("const i64 C = {}", lit), origin: format!("integer border {} as constant", lit) });
         out.push(Case { text: format!("enum E {{ A = {} }}", lit), origin: format!("integer border {} as enum value", lit) });
         out.push(Case { text: format!("struct S {{ 1: i64 f = {}, 2: list<i64> l = [{}, 1], 3: map<i64, i64> m = {{{}: {}}} }}", lit, lit, lit, lit), origin: format!("integer border {} in defaults", lit) });
